@@ -17,7 +17,7 @@ variable {P : Type} [VecLike P ℝ] [Inhabited P]
 /-- out of range at either end -/
 theorem between_out_of_range (c : Curve ℝ P) (l0 l1 : ℝ)
     (h : c.atLength l0 = none ∨ c.atLength l1 = none) : c.between l0 l1 = none := by
-  unfold Curve.between Curve.betweenRaw
+  unfold Curve.between Curve.betweenRaw Curve.betweenIllPosed Curve.betweenLastIndex
   rcases h with h | h
   · rw [h]
   · rw [h]; cases c.atLength l0 <;> rfl
@@ -29,7 +29,7 @@ theorem between_shorter_than_tol (c : Curve ℝ P) (l0 l1 : ℝ) (h : |l1 - l0| 
     unfold sabs; split_ifs with hn
     · exact (abs_of_neg hn).symm
     · exact (abs_of_nonneg (not_lt.mp hn)).symm
-  unfold Curve.between Curve.betweenRaw
+  unfold Curve.between Curve.betweenRaw Curve.betweenIllPosed Curve.betweenLastIndex
   cases h0 : c.atLength l0 with
   | none => rfl
   | some s =>
@@ -42,7 +42,7 @@ theorem between_shorter_than_tol (c : Curve ℝ P) (l0 l1 : ℝ) (h : |l1 - l0| 
 theorem between_reversed_on_open (c : Curve ℝ P) (l0 l1 : ℝ) (s e : Station ℝ P)
     (hopen : c.closed = false) (h0 : c.atLength l0 = some s) (h1 : c.atLength l1 = some e)
     (hrev : c.lengthAlong e < c.lengthAlong s) : c.between l0 l1 = none := by
-  unfold Curve.between Curve.betweenRaw
+  unfold Curve.between Curve.betweenRaw Curve.betweenIllPosed Curve.betweenLastIndex
   simp only [h0, h1, hopen, hrev, decide_true, Bool.not_false, Bool.and_self, Bool.or_true, if_true]
 
 /-- a piece is only ever produced for a request that is in range, at least `tol` long and (on an
